@@ -155,7 +155,8 @@ cdef class Exp:
         view.format = <char*>self.fmt if flags & PyBUF_FORMAT else NULL
         view.ndim = self.ndim
         view.shape = self.shape
-        view.strides = NULL if self.nostrides else self.strides
+        # strides may only be left out when the consumer did not ask for them
+        view.strides = NULL if (self.nostrides and (flags & PyBUF_STRIDES) != PyBUF_STRIDES) else self.strides
         view.suboffsets = self.suboffsets if self.hassub else NULL
         view.internal = NULL
     def __releasebuffer__(self, Py_buffer *view):
@@ -191,10 +192,10 @@ def module_source(models):
         for cid, ctype, tree in concrete(mname):
             ids.append((cid, mname))
             vals = ", ".join(pyval(e, g) for e, g in leaves_expr(tree, "e"))
-            src.append("def mv_%s(obj):\n    cdef %s[:] v = obj\n    cdef %s e\n    out = []\n    for i in range(v.shape[0]):\n"
-                       "        e = v[i]\n        out.extend((%s,))\n    return out\n" % (cid, ctype, ctype, vals))
-            src.append("def bf_%s(object[%s, ndim=1] v):\n    cdef %s e\n    out = []\n    for i in range(v.shape[0]):\n"
-                       "        e = v[i]\n        out.extend((%s,))\n    return out\n" % (cid, ctype, ctype, vals))
+            src.append("def mv_%s(obj, Py_ssize_t n):\n    cdef %s[:] v = obj\n    cdef %s e\n    cdef Py_ssize_t i\n    out = []\n"
+                       "    for i in range(v.shape[0]):\n        e = v[i]\n        out.extend((%s,))\n    return out\n" % (cid, ctype, ctype, vals))
+            src.append("def bf_%s(object[%s, ndim=1] v, Py_ssize_t n):\n    cdef %s e\n    cdef Py_ssize_t i\n    out = []\n"
+                       "    for i in range(n):\n        e = v[i]\n        out.extend((%s,))\n    return out\n" % (cid, ctype, ctype, vals))
             ad = addr_exprs(tree, "x")
             src.append("def lay_%s():\n    cdef %s x\n    return [sizeof(%s), [%s]]\n" % (
                 cid, ctype, ctype, ", ".join("[<size_t>(%s) - <size_t>&x, %s]" % (a, s) for a, s, _, _ in ad)))
@@ -359,7 +360,7 @@ def one(c):
     e = mod.Exp(raw[:max(isz * n, 1) if strides is None else len(raw)], fmt.encode("latin1"), isz, tuple(shape),
                 None if strides is None else tuple(strides), off, None if sub is None else tuple(sub))
     try:
-        r = ["ok", [norm(x) for x in getattr(mod, fn)(e)]]
+        r = ["ok", [norm(x) for x in getattr(mod, fn)(e, shape[0])]]
     except BaseException as ex:
         r = ["exc", type(ex).__name__]
     return r + [e.gets, e.releases]
